@@ -1,12 +1,7 @@
-(** C01 view of the cases: the observable that matters is the result value / exception. *)
+(** C01 view of the cases: the observable that matters is the result value / exception class. *)
 From Coq Require Import List ZArith NArith Bool.
 Import ListNotations.
-From Verif Require Export C01.Corr.
+From Verif Require Export C01.AllCorr.
 
-Definition out_eqb (a b : out) : bool :=
-  match a, b with
-  | OVal v1 _, OVal v2 _ => value_eqb v1 v2
-  | OErr x, OErr y => N.eqb x y
-  | _, _ => false
-  end.
+Definition out_eqb (a b : out) : bool := value_eqb a b.
 Definition spec_ok (c : case) (o : out) : bool := out_eqb (spec c) o.
